@@ -562,7 +562,7 @@ def search(ctx, xz, so, modes, refs):
 
 def replay(ctx, path):
     import replaylib
-    r = replaylib.load("C17", path)
+    r = replaylib.load(ctx, path)
     if "mode" not in r:
         # no recorded run (an obligation-only record, or the hand-written findings/C17-*.json): the check itself is the replay
         return replaylib.obligations("C17", run, r, path)
